@@ -12,3 +12,7 @@ import PyIkev2.Props.C08
 #print axioms PyIkev2.Props.C08.c08_at_most_once
 #print axioms PyIkev2.Props.C08.c08_retransmission_is_the_outstanding_request
 #print axioms PyIkev2.Props.C08.c08_error_reply_header
+#print axioms PyIkev2.Props.C08.c08_concrete_peer_frame
+#print axioms PyIkev2.Props.C08.c08_whole_model_executed_ids_strictly_increasing
+#print axioms PyIkev2.Props.C08.c08_whole_model_at_most_once
+#print axioms PyIkev2.Props.C08.c08_concrete_handlers_leave_shell_fields
